@@ -34,6 +34,10 @@ type Result struct {
 	// Key is the canonical form of the case used to count distinct
 	// non-trivial cases; empty means "JSON of the plan".
 	Key string
+	// NTKeys lists several distinct non-trivial sub-cases inside one executed
+	// case (e.g. one per injected claim); each is hashed into the distinct
+	// set. When set, Key is ignored for the distinct count.
+	NTKeys []string
 	// PrecondFalse marks cases whose evaluated precondition was false (the
 	// property says nothing about them).
 	PrecondFalse bool
@@ -243,7 +247,13 @@ func Record(test string, plan any, r Result) {
 	if r.NonTrivial {
 		s.NonTrivial++
 		hs := hashSet[test]
-		if len(hs) < maxHashes {
+		if len(r.NTKeys) > 0 {
+			for _, k := range r.NTKeys {
+				if len(hs) < maxHashes {
+					hs[hash64(k)] = struct{}{}
+				}
+			}
+		} else if len(hs) < maxHashes {
 			hs[hash64(key)] = struct{}{}
 		}
 		if len(s.Samples) < maxSamples {
